@@ -29,16 +29,16 @@ def run(ctx):
     ]
     # ---- leg A
     cfgs = [("PipeConn_design2.cfg", "design, 2 callers x 1 call, stream: all invariants", {}),
-            ("PipeConn_design2u.cfg", "design, 2 callers x 1 call, datagram/resend", {}),
             ("PipeConn_live.cfg", "design, liveness arrived ~> done (fair, no constraint)", {})]
     if T:
-        cfgs += [("PipeConn_design2full.cfg", "design, 2 callers, stream+datagram, limits 1-2, all budgets", {"timeout": 1200}),
+        cfgs += [("PipeConn_design2u.cfg", "design, 2 callers x 1 call, datagram/resend", {}),
+                 ("PipeConn_design2full.cfg", "design, 2 callers, stream+datagram, limits 1-2, all budgets", {"timeout": 1200}),
                  ("PipeConn_design3.cfg", "design, 3 callers x 1 call", {"timeout": 1500})]
     pc.leg_a(ctx, cfgs, [("PipeConn_dev_d1.cfg", "NoLoss"), ("PipeConn_dev_d2.cfg", "NoLoss")])
 
     # ---- leg B: schedules from TLC
     b1 = vlib.tlc_behaviours(ctx, "PipeConn", "PipeConn_gen1.cfg", label="generator: 1 caller, exhaustive BFS")
-    nsim = 1500 if T else 250
+    nsim = 1500 if T else 120
     b2 = vlib.tlc_behaviours(ctx, "PipeConn", "PipeConn_gen.cfg", simulate=nsim, depth=150,
                              cfg_text=pc.gen_cfg(GenFocus='"late_fault"', MaxCancel="0", MaxStray="0"),
                              label="generator: 2 callers, faults only directly after a reply")
@@ -48,21 +48,26 @@ def run(ctx):
                              label="generator: 3 callers")
     behs = [b for b in b1 + b2 + b3 if not any(s["a"] == "Reserve" and s["o"] == "full" for s in b["steps"])]
     scripts, meta = [], []
-    race_rep = 60 if T else 8
     kinds = ["eof", "err", "timeout"]
+    # the reply-then-close race is decided by Go's select: repeat a sample of those behaviours N times
+    race_ids = [i for i, b in enumerate(behs) if pc.reply_then_fault(b["steps"])]
+    rng.shuffle(race_ids)
+    race_ids = set(race_ids[:40 if T else 10])
+    race_rep = 200 if T else 24
     for i, b in enumerate(behs):
         early = pc.early_delivery(b["steps"])
         race = pc.reply_then_fault(b["steps"])
-        reps = race_rep if race else 1
+        reps = race_rep if i in race_ids else 1
         for k in range(reps):
-            for dgram in ((False, True) if (early or race) and (k % 2 == 0 or T) else (rng.random() < 0.5,)):
+            both = T and (early or race) and k == 0
+            for dgram in ((False, True) if both else ((i + k) % 2 == 1,)):
                 scripts.append(pc.script_of(b, "b%d.%d.%s" % (i, k, "udp" if dgram else "tcp"), maxcq=BIG, dgram=dgram,
                                             idpolicy=rng.choice(["random", "zero", "ffff", "same"]),
                                             kinds=[kinds[(i + k) % 3]], pause=(k % 3 == 1),
                                             grace_ms=600 if dgram else 1500))
                 meta.append({"beh": i, "early": early, "race": race})
     # randomized concurrent runs (real goroutine interleavings)
-    nrand = 600 if T else 80
+    nrand = 600 if T else 60
     for i in range(nrand):
         scripts.append(pc.random_script("rnd%d" % i, callers=rng.choice([1, 2, 3, 4]), calls=rng.choice([1, 2, 3]),
                                         maxcq=BIG, dgram=(i % 2 == 1), seed=rng.randrange(1, 2 ** 31),
@@ -73,7 +78,7 @@ def run(ctx):
     recs = pc.run_scripts(ctx, scripts, workers=8)
 
     # ---- leg C
-    rej = pc.validate(ctx, recs, TRACE_CFG, "C02")
+    rej = pc.validate(ctx, recs, TRACE_CFG, "C02", max_reject=12)
     by_sig = pc.report(ctx, recs, rej)
     st = pc.steering_stats(ctx, recs)
     ctx.cov["evaluations"] = len(recs)
